@@ -38,6 +38,7 @@ Theorem C03_detect_total_unambiguous :
   (forall payload got, bytes_ok payload -> pickle_startb payload = true -> detect got payload = KPlain) /\
   max_prefix_len = live_max_prefix_len.
 Proof. exact detect_total_unambiguous. Qed.
+Print Assumptions C03_detect_total_unambiguous.
 
 (* Round trip of the stream layer: for EVERY compress argument and target (kind and file NAME) that
    `dump` accepts, every payload that starts like a pickle, every name the file is loaded under, every size
@@ -59,6 +60,7 @@ Proof.
   intros encode decode H1 H2 c t w payload out load_name peekable got pre _ Hd Hok Hs Hg Hp.
   exact (roundtrip_stream encode decode H1 H2 w payload out load_name peekable got pre Hd Hok Hs Hg Hp).
 Qed.
+Print Assumptions C03_roundtrip_stream.
 
 (* dump itself raises only where the code raises: resolve's ValueErrors, or a selected compressor whose
    backing module is missing (lz4 here) *)
@@ -66,6 +68,7 @@ Theorem C03_dump_total : forall (encode : list Z -> level -> bytes -> bytes) c t
   resolve c t = Ok w -> (forall codec l, effective w = Some (codec, l) -> codec_available codec = true) ->
   exists out, dump_stream encode w payload = Ok out.
 Proof. intros encode c t w payload _ H. exact (dump_stream_total encode w payload H). Qed.
+Print Assumptions C03_dump_total.
 
 (* the hypotheses of C03_roundtrip_stream are satisfiable (toy codec = magic ++ payload), and a concrete
    instance: method named explicitly, misleading target name, loaded under another misleading name from
@@ -78,6 +81,7 @@ Example C03_hypotheses_satisfiable :
   dump_stream toy_encode (WComp (Some [103; 122; 105; 112]) LNone) payload = Ok ([31; 139] ++ payload) /\
   load_stream toy_decode [119; 46; 98; 122; 50] true 5 ([1; 2; 3] ++ [31; 139] ++ payload) 3 = Ok payload.
 Proof. exact (conj toy_roundtrip (conj toy_magic toy_instance)). Qed.
+Print Assumptions C03_hypotheses_satisfiable.
 
 (* `resolve` agrees with the documented table of joblib.dump *)
 Theorem C03_resolve_spec :
@@ -112,3 +116,4 @@ Theorem C03_resolve_spec :
      | Some (codec, l) => in_registry codec = true /\ (l = LNone \/ exists n, l = LInt n /\ 1 <= n <= 9)
      end).
 Proof. exact resolve_spec. Qed.
+Print Assumptions C03_resolve_spec.
